@@ -975,7 +975,12 @@ func c06Check(o *engine.Outcome, sh *engine.Shape, count bool, ef *engine.Fault,
 		ref = refmodel.VerifyDelivered(sh.Kind, b, consumed)
 	}
 	if !ref.OK {
-		return "reference-rejects-what-the-library-signed", ref.Why
+		// an independent verifier disagreeing with the library about what the
+		// library itself signed and verifies is a question of agreement with the
+		// specification (C02), not of C06, which asks the library's own Verify
+		if count {
+			o.Probe("reference_rejects_what_the_library_signed_and_verifies:" + sh.Kind)
+		}
 	}
 	// delivered followed by the next frame: must still verify
 	var acc2 bool
